@@ -1,1 +1,358 @@
-/- C16 — property theorems (stub: not built yet) -/
+import Rivaas.Spec.RateLimit
+/-
+C16 — Rate limiting conforms to its algorithm under concurrency.
+Token bucket (units: 1/512 token, 1/512 s): never over-admits for *every* clock sequence
+(potential argument), agrees with the reference bucket for non-decreasing clocks, keys are
+independent, simultaneous calls admit at most the tokens available, `resetSeconds` / Retry-After is
+the least whole number of seconds after which a retry succeeds. Sliding window: per key and fixed
+window at most `limit` admissions when requests are served one after the other; the check-then-act
+race and the untruthful Retry-After of the shipped code are `decide`-proved witnesses (K16b).
+-/
+namespace Rivaas.C16
+open Rivaas.RateLimit
+
+/-! ## token bucket: the potential argument (every clock sequence) -/
+
+theorem lemma_mul_sub (r a b : Int) : (a - b) * r = r * a - r * b := by
+  rw [Int.sub_mul, Int.mul_comm a r, Int.mul_comm b r]
+
+/-- `tokens − rate·lastUpdate` never increases, and an admission lowers it by one token -/
+theorem lemma_allow_potential (r B : Int) (s : Bucket) (now : Int) :
+    (allow r B s now).1.tok - r * (allow r B s now).1.last + 512 * (if (allow r B s now).2.allowed then 1 else 0)
+      ≤ s.tok - r * s.last := by
+  unfold allow take refill
+  have h := lemma_mul_sub r now s.last
+  simp only [decide_eq_true_eq]
+  split <;> split <;> omega
+
+/-- after an admission the entry holds a non-negative amount -/
+theorem lemma_allow_nonneg (r B : Int) (s : Bucket) (now : Int) (h : (allow r B s now).2.allowed = true) :
+    0 ≤ (allow r B s now).1.tok := by
+  unfold allow take at h ⊢
+  simp only [decide_eq_true_eq] at h
+  simp only [h, if_true]
+  omega
+
+theorem lemma_allow_last (r B : Int) (s : Bucket) (now : Int) : (allow r B s now).1.last = now := rfl
+
+/-- refilling twice at the same instant changes nothing: a call decides as if the entry had been
+    brought up to date first -/
+theorem lemma_allow_refill (r B : Int) (s : Bucket) (now : Int) :
+    allow r B (refill r B s now) now = allow r B s now := by
+  unfold allow
+  have : refill r B (refill r B s now) now = refill r B s now := by
+    unfold refill; simp only [Int.sub_self, Int.zero_mul, Int.add_zero]
+    split
+    · simp
+    · first | rfl | simp
+  rw [this]
+
+theorem lemma_refill_le (r B : Int) (s : Bucket) (now : Int) : (refill r B s now).tok ≤ B := by
+  unfold refill; simp only; split <;> omega
+
+/-- over any run: either nothing was admitted, or some call time `tk` of the run bounds the
+    admissions by the initial potential plus `rate·tk` -/
+theorem lemma_run_bound (r B : Int) (s : Bucket) (ts : List Int) :
+    countTrue (run r B s ts).2 = 0 ∨
+    ∃ tk ∈ ts, 512 * (countTrue (run r B s ts).2 : Int) ≤ s.tok - r * s.last + r * tk := by
+  induction ts generalizing s with
+  | nil => left; rfl
+  | cons t ts ih =>
+    simp only [run]
+    have hp := lemma_allow_potential r B s t
+    have hl := lemma_allow_last r B s t
+    rcases ih (allow r B s t).1 with h0 | ⟨tk, htk, hb⟩
+    · by_cases ha : (allow r B s t).2.allowed = true
+      · right
+        refine ⟨t, List.mem_cons_self .., ?_⟩
+        have hn := lemma_allow_nonneg r B s t ha
+        simp only [countTrue, List.filter_cons, ha, id, if_true, List.length_cons] at h0 ⊢
+        simp only [ha, if_true] at hp
+        rw [hl] at hp
+        rw [h0]; omega
+      · left
+        simp only [countTrue, List.filter_cons, ha, id] at h0 ⊢
+        simpa using h0
+    · right
+      refine ⟨tk, List.mem_cons_of_mem _ htk, ?_⟩
+      by_cases ha : (allow r B s t).2.allowed = true
+      · simp only [countTrue, List.filter_cons, ha, id, if_true, List.length_cons] at hb ⊢
+        simp only [ha, if_true] at hp
+        omega
+      · simp only [countTrue, List.filter_cons, ha, id] at hb ⊢
+        simp only [ha] at hp
+        simp at hp ⊢
+        omega
+
+/-- **The limiter never over-admits, for every clock sequence** (non-decreasing, regressing, anything):
+    from any entry state, calls whose timestamps all lie in an interval of length `T` (in 1/512 s)
+    contain at most `burst + rate·T` admissions (in 1/512 token: `512·admitted ≤ B + r·T`). -/
+theorem bucket_never_over_admits (r B : Int) (hr : 0 ≤ r) (hB : 0 ≤ B) (s : Bucket) (ts : List Int)
+    (a T : Int) (hT : 0 ≤ T) (hin : ∀ t ∈ ts, a ≤ t ∧ t ≤ a + T) :
+    512 * (countTrue (run r B s ts).2 : Int) ≤ B + r * T := by
+  have hrT : 0 ≤ r * T := Int.mul_nonneg hr hT
+  cases ts with
+  | nil => simp [run, countTrue]; omega
+  | cons t1 rest =>
+    -- bring the entry up to date at the first call: its level is then at most the burst
+    have hsame : run r B s (t1 :: rest) = run r B (refill r B s t1) (t1 :: rest) := by
+      simp only [run, lemma_allow_refill]
+    rw [hsame]
+    have hle := lemma_refill_le r B s t1
+    have hlast : (refill r B s t1).last = t1 := rfl
+    rcases lemma_run_bound r B (refill r B s t1) (t1 :: rest) with h0 | ⟨tk, htk, hb⟩
+    · rw [h0]; simp; omega
+    · rw [hlast] at hb
+      have h1 := hin t1 (List.mem_cons_self ..)
+      have hk := hin tk htk
+      have : r * tk - r * t1 ≤ r * T := by
+        have : r * (tk - t1) ≤ r * T := Int.mul_le_mul_of_nonneg_left (by omega) hr
+        rw [Int.mul_sub] at this; exact this
+      omega
+
+/-! ## token bucket: agreement with the reference bucket (non-decreasing clocks) -/
+
+/-- coupling between the limiter's entry and the reference bucket: the entry is the reference level
+    brought forward to the entry's `lastUpdate` -/
+def Coupled (r B : Int) (s : Bucket) (x : Ref) : Prop :=
+  x.at_ ≤ s.last ∧ s.tok = min B (x.level + r * (s.last - x.at_))
+
+theorem lemma_coupled_step (r B : Int) (hr : 0 ≤ r) (s : Bucket) (x : Ref) (now : Int)
+    (hc : Coupled r B s x) (hnow : s.last ≤ now) :
+    (refill r B s now).tok = x.avail r B now ∧
+    (allow r B s now).2.allowed = (x.step r B now).2 ∧
+    Coupled r B (allow r B s now).1 (x.step r B now).1 := by
+  obtain ⟨h1, h2⟩ := hc
+  have hm1 := lemma_mul_sub r now s.last
+  have hm2 : r * (s.last - x.at_) = r * s.last - r * x.at_ := Int.mul_sub ..
+  have hm3 : r * (now - x.at_) = r * now - r * x.at_ := Int.mul_sub ..
+  have hmono : r * s.last ≤ r * now := Int.mul_le_mul_of_nonneg_left hnow hr
+  have hav : (refill r B s now).tok = x.avail r B now := by
+    unfold refill Ref.avail
+    simp only
+    rw [h2, hm1, hm2, hm3]
+    split <;> omega
+  refine ⟨hav, ?_, ?_⟩
+  · unfold allow take Ref.step
+    simp only [hav]
+    by_cases h : x.avail r B now ≥ 512 <;> simp [h]
+  · unfold Coupled allow take Ref.step
+    simp only [hav]
+    by_cases h : x.avail r B now ≥ 512
+    · simp only [h, if_true]
+      refine ⟨Int.le_refl _, ?_⟩
+      show x.avail r B now - 512 = min B (x.avail r B now - 512 + r * (now - now))
+      have : x.avail r B now ≤ B := by unfold Ref.avail; omega
+      simp only [Int.sub_self, Int.mul_zero, Int.add_zero]; omega
+    · simp only [h, if_false]
+      refine ⟨by show x.at_ ≤ now; omega, ?_⟩
+      show x.avail r B now = min B (x.level + r * (now - x.at_))
+      rfl
+
+/-- **With a non-decreasing clock the limiter admits a call iff the reference bucket holds a token** -/
+theorem bucket_iff_reference (r B : Int) (hr : 0 ≤ r) (s : Bucket) (x : Ref) (ts : List Int)
+    (hc : Coupled r B s x) (hsorted : sorted (s.last :: ts) = true) :
+    (run r B s ts).2 = Ref.run r B x ts := by
+  induction ts generalizing s x with
+  | nil => rfl
+  | cons t ts ih =>
+    simp only [sorted, Bool.and_eq_true, decide_eq_true_eq] at hsorted
+    obtain ⟨_, h2, h3⟩ := lemma_coupled_step r B hr s x t hc hsorted.1
+    simp only [run, Ref.run]
+    rw [h2, ih (allow r B s t).1 (x.step r B t).1 h3 (by rw [lemma_allow_last]; exact hsorted.2)]
+
+/-- a new entry (created full at its first call) is coupled with a full reference bucket -/
+theorem lemma_coupled_new (r B now : Int) : Coupled r B { tok := B, last := now } { level := B, at_ := now } := by
+  unfold Coupled; simp
+
+/-! ## truthful reset / Retry-After -/
+
+theorem lemma_ceil (need d : Int) (hd : 0 < d) (_hn : 0 < need) :
+    need ≤ d * ((need + d - 1) / d) ∧ d * ((need + d - 1) / d - 1) < need := by
+  have h1 := Int.mul_ediv_add_emod (need + d - 1) d
+  have h2 := Int.emod_nonneg (need + d - 1) (by omega : d ≠ 0)
+  have h3 := Int.emod_lt_of_pos (need + d - 1) hd
+  have h4 : d * ((need + d - 1) / d - 1) = d * ((need + d - 1) / d) - d := by rw [Int.mul_sub, Int.mul_one]
+  constructor <;> omega
+
+/-- **`resetSeconds` is truthful and in seconds**: when a call at `now` is rejected with
+    `resetSeconds = R`, a retry `R` seconds later (no other traffic on the key) is admitted, and
+    `R` is the least positive whole number of seconds with that property. -/
+theorem retry_after_truthful (r B : Int) (hr : 1 ≤ r) (hB : 512 ≤ B) (s : Bucket) (now : Int)
+    (hrej : (allow r B s now).2.allowed = false) :
+    1 ≤ (allow r B s now).2.reset ∧
+    (allow r B (allow r B s now).1 (now + 512 * (allow r B s now).2.reset)).2.allowed = true ∧
+    ((allow r B s now).2.reset = 1 ∨
+     (allow r B (allow r B s now).1 (now + 512 * ((allow r B s now).2.reset - 1))).2.allowed = false) := by
+  unfold allow take at hrej
+  simp only [decide_eq_false_iff_not] at hrej
+  have hst : (allow r B s now).1 = refill r B s now := by
+    unfold allow take; simp only [hrej, if_false]
+  have hR : (allow r B s now).2.reset = resetFor r (refill r B s now).tok := by
+    unfold allow take; simp only [hrej, if_false]
+  rw [hst, hR]
+  generalize hs' : refill r B s now = s' at *
+  have hlast : s'.last = now := by rw [← hs']; rfl
+  have hneed : 0 < 512 - s'.tok := by omega
+  have hd : 0 < 512 * r := by omega
+  obtain ⟨hc1, hc2⟩ := lemma_ceil (512 - s'.tok) (512 * r) hd hneed
+  generalize hq : (512 - s'.tok + 512 * r - 1) / (512 * r) = q at hc1 hc2
+  have hq1 : 1 ≤ q := by
+    rcases Int.lt_or_le q 1 with h | h
+    · exfalso
+      have : 512 * r * q ≤ 0 := Int.mul_nonpos_of_nonneg_of_nonpos (by omega) (by omega)
+      omega
+    · exact h
+  have hRq : resetFor r s'.tok = q := by unfold resetFor; rw [hq]; omega
+  rw [hRq]
+  refine ⟨hq1, ?_, ?_⟩
+  · unfold allow take refill
+    simp only [hlast, decide_eq_true_eq]
+    have : (now + 512 * q - now) * r = 512 * r * q := by
+      have : now + 512 * q - now = 512 * q := by omega
+      rw [this, Int.mul_assoc, Int.mul_comm q r, ← Int.mul_assoc]
+    rw [this]
+    split <;> omega
+  · by_cases h1 : q = 1
+    · left; exact h1
+    · right
+      unfold allow take refill
+      simp only [hlast, decide_eq_false_iff_not]
+      have : (now + 512 * (q - 1) - now) * r = 512 * r * (q - 1) := by
+        have : now + 512 * (q - 1) - now = 512 * (q - 1) := by omega
+        rw [this, Int.mul_assoc, Int.mul_comm (q - 1) r, ← Int.mul_assoc]
+      rw [this]
+      split <;> omega
+
+/-! ## simultaneous calls -/
+
+/-- **N simultaneous requests never admit more than the tokens available.** `Allow` holds the
+    entry's mutex for its whole read-modify-write, so any interleaving of N calls is some order of N
+    atomic `allow` steps; with one timestamp they are N identical steps, and together they admit at
+    most the whole tokens the refilled entry holds. (For calls with *different* timestamps in any
+    order, `bucket_never_over_admits` applies: it quantifies over every list, hence every order.) -/
+theorem concurrent_le_tokens (r B : Int) (s : Bucket) (now : Int) (N : Nat) :
+    512 * (countTrue (run r B s (List.replicate N now)).2 : Int) ≤ max 0 (refill r B s now).tok := by
+  cases N with
+  | zero => simp [run, countTrue]; omega
+  | succ n =>
+    have hsame : run r B s (List.replicate (n + 1) now) = run r B (refill r B s now) (List.replicate (n + 1) now) := by
+      simp only [List.replicate_succ, run, lemma_allow_refill]
+    rw [hsame]
+    rcases lemma_run_bound r B (refill r B s now) (List.replicate (n + 1) now) with h0 | ⟨tk, htk, hb⟩
+    · rw [h0]; simp; omega
+    · have : tk = now := (List.mem_replicate.mp htk).2
+      subst this
+      have hl : (refill r B s tk).last = tk := rfl
+      rw [hl] at hb
+      omega
+
+/-! ## keys do not influence each other -/
+
+theorem lemma_get_set_self (st : Store) (k : Bytes) (b : Bucket) : (st.set k b).get k = some b := by
+  induction st with
+  | nil => simp [Store.set, Store.get]
+  | cons kv rest ih =>
+    obtain ⟨k', v⟩ := kv
+    unfold Store.set
+    by_cases h : (k == k') = true
+    · simp only [h, if_true]
+      have : k = k' := by simpa using h
+      subst this
+      simp [Store.get]
+    · have h' : (k == k') = false := by simpa using h
+      simp only [h', Bool.false_eq_true, if_false]
+      unfold Store.get at ih ⊢
+      rw [List.lookup_cons, h']
+      exact ih
+
+theorem lemma_get_set_other (st : Store) (k k2 : Bytes) (b : Bucket) (hne : k2 ≠ k) :
+    (st.set k b).get k2 = st.get k2 := by
+  have hk2 : (k2 == k) = false := by simpa using hne
+  induction st with
+  | nil => simp [Store.set, Store.get, hne]
+  | cons kv rest ih =>
+    obtain ⟨k', v⟩ := kv
+    unfold Store.set
+    by_cases h : (k == k') = true
+    · have hk : k = k' := by simpa using h
+      subst hk
+      simp only [h, if_true]
+      unfold Store.get
+      rw [List.lookup_cons, List.lookup_cons, hk2]
+    · have h' : (k == k') = false := by simpa using h
+      simp only [h', Bool.false_eq_true, if_false]
+      unfold Store.get at ih ⊢
+      rw [List.lookup_cons, List.lookup_cons, ih]
+
+/-- one key's calls served on that key's entry alone (created full at the first call) -/
+def runKey (r B : Int) : Option Bucket → List Int → List Out
+  | _, [] => []
+  | e, t :: ts =>
+    (allow r B (e.getD { tok := B, last := t }) t).2 ::
+      runKey r B (some (allow r B (e.getD { tok := B, last := t }) t).1) ts
+
+/-- **Keys are independent**: in any trace on a shared store, the answers to one key's calls are
+    exactly what that key's calls get on an entry of their own — whatever the other keys do in
+    between. -/
+theorem keys_independent (r B : Int) (st : Store) (calls : List (Bytes × Int)) (k : Bytes) :
+    ((calls.zip (runStore r B st calls)).filterMap fun co => if co.1.1 == k then some co.2 else none)
+      = runKey r B (st.get k) ((calls.filter (·.1 == k)).map (·.2)) := by
+  induction calls generalizing st with
+  | nil => simp [runStore, runStoreWith, runKey]
+  | cons c rest ih =>
+    obtain ⟨key, t⟩ := c
+    simp only [runStore, runStoreWith, List.zip_cons_cons, List.filterMap_cons, List.filter_cons]
+    by_cases hk : (key == k) = true
+    · have hkk : key = k := by simpa using hk
+      subst hkk
+      simp only [hk, if_true, List.map_cons, runKey]
+      have ih' := ih (Store.allowWith allow r B st key t).1
+      simp only [runStore] at ih'
+      rw [ih']
+      simp only [Store.allowWith, lemma_get_set_self]
+    · have hkf : (key == k) = false := by simpa using hk
+      simp only [hkf, Bool.false_eq_true, if_false]
+      have ih' := ih (Store.allowWith allow r B st key t).1
+      simp only [runStore] at ih'
+      rw [ih']
+      have hne : k ≠ key := fun h => by simp [h] at hkf
+      simp only [Store.allowWith, lemma_get_set_other _ _ _ _ hne]
+
+/-! ## middleware glue -/
+
+/-- **429 with truthful headers**: the token-bucket middleware repeats the store's answer — the
+    handler runs iff the call was admitted (or the limiter only reports), a rejection is answered 429
+    with `Retry-After` = the store's `resetSeconds`, and `RateLimit-Remaining` / `RateLimit-Reset`
+    are the store's values. -/
+theorem mw_meets_spec (cfg : MwCfg) (txt : Bytes) (o : Out) : mwSpecOK cfg o (mwBucket cfg txt o) = true := by
+  unfold mwSpecOK mwBucket
+  cases cfg.headers <;> cases o.allowed <;> cases cfg.hasCallback <;> cases cfg.enforce <;> simp
+
+theorem mw_rejects_with_429 (cfg : MwCfg) (txt : Bytes) (o : Out) (h : o.allowed = false)
+    (he : cfg.enforce = true) (hc : cfg.hasCallback = false) :
+    (mwBucket cfg txt o).status = 429 ∧ (mwBucket cfg txt o).ran = false ∧
+    (mwBucket cfg txt o).retryAfter = some o.reset := by
+  unfold mwBucket; simp [h, he, hc]
+
+/-! ## witnesses and non-vacuity -/
+
+/-- K16a: as shipped, a call rejected for half a token at one token per second reported
+    `resetSeconds = 500000000` (nanoseconds); the repaired code says 1 -/
+theorem bucket_asis_reset_witness :
+    (allowAsIs 1 512 { tok := 0, last := 0 } 256).2 = { allowed := false, remaining := 0, reset := 500000000 } ∧
+    (allow 1 512 { tok := 0, last := 0 } 256).2 = { allowed := false, remaining := 0, reset := 1 } := by
+  decide
+
+/-- burst 3 at one token per second: four calls at once admit three; half a second later still
+    nothing; a full second after the rejection the retry succeeds (hypotheses of the theorems are met) -/
+example : (runStore 1 (3 * 512) [] [("k".toList, 0), ("k".toList, 0), ("k".toList, 0), ("k".toList, 0),
+                                     ("k".toList, 256), ("k".toList, 512)]).map (·.allowed)
+          = [true, true, true, false, false, true] := by decide
+example : bucketSpecOK 1 (3 * 512) [("k".toList, 0), ("k".toList, 0), ("k".toList, 0), ("k".toList, 0), ("k".toList, 256), ("k".toList, 512)]
+            (runStore 1 (3 * 512) [] [("k".toList, 0), ("k".toList, 0), ("k".toList, 0), ("k".toList, 0), ("k".toList, 256), ("k".toList, 512)]) = true := by
+  decide
+/-- a regressing clock takes tokens away (under-admission, which the statement allows) and never adds any -/
+example : (run 5 (2 * 512) { tok := 1024, last := 1000 } [1000, 400, 400, 1000, 1000]).2 = [true, false, false, true, false] := by decide
+
+end Rivaas.C16
